@@ -55,3 +55,30 @@ fn c19_native_pending_without_wake() {
             "poll_next returned Pending after a failed setup and nothing ever wakes the task again");
     });
 }
+
+// Per-connection setup must fail with an error, never by panicking: a panic unwinds through poll_next into the
+// listener task and takes the listener down.  Keepalive values around every conversion boundary.
+#[test]
+fn c19_native_setup_never_panics() {
+    let rt = tokio::runtime::Builder::new_current_thread().enable_all().build().unwrap();
+    let mut bad = Vec::new();
+    for secs in [0u64, 1, 32767, 32768, 40000, u32::MAX as u64 - 1, u32::MAX as u64, u32::MAX as u64 + 1,
+                 1u64 << 40, u64::MAX / 2, u64::MAX] {
+        let res = std::panic::catch_unwind(std::panic::AssertUnwindSafe(|| {
+            rt.block_on(async {
+                let std_listener = StdListener::bind("127.0.0.1:0").unwrap();
+                std_listener.set_nonblocking(true).unwrap();
+                let addr = std_listener.local_addr().unwrap();
+                let listener = TcpListener::from_std(std_listener).unwrap();
+                let _client = std::net::TcpStream::connect(addr).unwrap();
+                let (sock, peer) = listener.accept().await.unwrap();
+                let metrics = RtrServerMetrics::new(false);
+                RtrStream::new(sock, peer, None, Some(Duration::from_secs(secs)), &metrics).is_ok()
+            })
+        }));
+        if res.is_err() {
+            bad.push(secs);
+        }
+    }
+    assert!(bad.is_empty(), "RtrStream::new panics for keepalive seconds {:?}", bad);
+}
